@@ -38,12 +38,20 @@ class EngineProp(Prop):
         "cancel instant) is generated and replayable; internal goroutine interleavings are whatever the Go runtime "
         "produced on the runs (GOMAXPROCS 1, 2, 4, 16)",
         "Source.Ack itself does not fail in the generated runs",
-        "processors either pass a record on unchanged, filter it or fail it (splitting processors are C08's)",
+        "processors pass a record on (unchanged or rewritten), filter it, fail it or - v2 - leave it unanswered "
+        "(short reply of an output-capped processor, nil result in the middle of a reply: the retry protocol); "
+        "splitting processors are C08's",
     ]
     rule = ("random topology N in 1..3 sources x M in 1..3 destinations, processor chains of depth 0..2 (source, pipeline "
             "and destination level; v1 with 1..4 parallel workers), 1..4 batches of 1..5 records per source, "
             "per-destination script {ack, nack some records, write error, ack error, reply chunking, slow}, DLQ window "
-            "and DLQ write failure, stop or cancel at a generated instant, GOMAXPROCS in {1,2,4,16}; all from one "
+            "and DLQ write failure, stop or cancel at a generated instant, GOMAXPROCS in {1,2,4,16}; directed families: "
+            "cancel in the middle of a fan-out, filter -> transform on large batches, v2 retry groups in the middle of a "
+            "batch (processors with an output cap of 1..3 records per call and / or unanswered records, next to "
+            "processors that filter / fail records, before and below the fan-out), v1 head-of-line blocking in a "
+            "ParallelNode of 4..8 workers fed by 2..3 sources (one slow record per healthy source, a victim source "
+            "whose records are dead-lettered in the middle of the coordinator's queue, optionally a slow "
+            "destination); all from one "
             "splitmix64 state. distinct = distinct input JSON; non-trivial = at least 2 records were read, at least one "
             "source ack was observed, and (M >= 2 or a nack / filter / DLQ write / failure occurred)")
 
@@ -92,6 +100,7 @@ class EngineProp(Prop):
     def distribution(self, cases):
         d = {"v1": 0, "v2": 0, "service_level_runs": 0, "malformed": 0, "with_ctl_stop": 0, "with_ctl_cancel": 0, "engine_error_runs": 0,
              "runs_with_dlq_write": 0, "runs_with_filter": 0, "runs_with_dest_nack": 0, "hangs": 0,
+             "v2_runs_with_retry_group": 0, "v2_retry_groups": 0, "v1_parallel_head_of_line_runs": 0,
              "v1_parallel_node_shutdown_deadlocks": 0, "engine_crashed_the_child_process": 0,
              "NxM": {}, "gomaxprocs": {}, "events": 0}
         for c in cases:
@@ -108,6 +117,10 @@ class EngineProp(Prop):
             d["runs_with_filter"] += any(e[0] == "F" for e in log)
             d["runs_with_dest_nack"] += any(e[0] == "C" and not e[-1] for e in log)
             d["hangs"] += bool(o.get("hang"))
+            d["v2_runs_with_retry_group"] += bool(o.get("retries"))
+            d["v2_retry_groups"] += int(o.get("retries") or 0)
+            procs = list(i.get("pipeProcs") or []) + [p for x in i.get("dests", []) for p in (x.get("procs") or [])]
+            d["v1_parallel_head_of_line_runs"] += any(p.get("slowRecs") for p in procs)
             d["v1_parallel_node_shutdown_deadlocks"] += bool(o.get("stuck"))
             d["engine_crashed_the_child_process"] += bool(o.get("crashed"))
             k = "%dx%d" % (len(i["sources"]), len(i["dests"]))
